@@ -475,6 +475,102 @@ def gen_c07(tier, seed):
 
 
 # ------------------------------------------------------------------------------------------
+# C11 path order and validity, C12 subtree selection
+
+APATH_COMPS_Q = [" ", "-", ".a", "a", "a.b", "ab", "b", "é", "éa", "z"]
+APATH_COMPS_T = [" ", ".a", "a", "ab", "é", "z"]
+
+
+def apath_strings(tier, rng):
+    """Raw strings for the comparator / validity / ancestor tables: every path up to a depth over the
+    component alphabet (the same set MC_Apath.tla quantifies over), plus ill-formed strings."""
+    comps = APATH_COMPS_Q
+    valid = ["/"] + ["/" + a for a in comps] + ["/" + a + "/" + b for a in comps for b in comps]
+    if tier != "quick":
+        valid += ["/" + a + "/" + b + "/" + c for a in APATH_COMPS_T for b in APATH_COMPS_T for c in APATH_COMPS_T]
+        valid += ["/a/b/c/d", "/a/b/c/é", "/é/é/é/é", "/ab/a/b/ " ]
+    NUL = chr(0)
+    bad = ["", "a", "a/b", "//", "/a/", "/a//b", "//a", "/.", "/..", "/a/.", "/a/..", "/./a", "/../a", "/a/./b", "/a/../b",
+           "/a" + NUL, "/" + NUL, "/a/b" + NUL + "c", ".", "..", "/ /", "é", "/é/", "/é//a", "/..a/..", "/.../.", " /a", chr(92) + "a"]
+    tricky_valid = ["/...", "/..a", "/a..", "/.a.", "/ ", "/-", "/a/ ", "/" + chr(92)]
+    allv = list(dict.fromkeys(valid + tricky_valid))
+    strings = allv + bad
+    rng.shuffle(strings)
+    return strings
+
+
+def apath_table_scenario(prop, tier, rng, chunk=None):
+    strings = apath_strings(tier, rng)
+    if chunk:
+        strings = strings[:chunk]
+    return {"id": sid(prop, "table", 0), "props": [prop], "mode": "probe", "no_create": True, "tags": ["apath-table"],
+            "steps": [{"op": "apath_table", "strings": [list(x.encode("utf-8")) for x in strings], "block": 12}]}
+
+
+ORDER_NAMES = [" ", "-", ".a", "a", "a.b", "ab", "b", "é", "éa", "z", "A", "~", "a b", "0", "a-", "a/"]
+
+
+@check("C11", "model_checking", "TLA+ spec (Apath.tla): order theorems checked by TLC over all triples of bounded paths; the real comparator, validity test and source walk compared with the spec by TLC on exported tables / recorded walks")
+def gen_c11(tier, seed):
+    rng = random.Random(seed * 1000 + 11)
+    mcs = []
+    cfg = "MC_Apath_quick.cfg" if tier == "quick" else "MC_Apath_thorough.cfg"
+    r = cvlib.run_tlc_model("MC_Apath.tla", cfg, timeout=3000)
+    mcs.append(("MC_Apath.tla", cfg, r))
+    scens = [apath_table_scenario("C11", tier, rng)]
+    names = [n for n in ORDER_NAMES if "/" not in n]
+    n = 80 if tier == "quick" else 1000
+    for i in range(n):
+        t = random_tree(rng, nmax=rng.choice([5, 9, 14, 20]), depth=4, names=names, pre_epoch=False, maxlen=4)
+        o = {"H": rng.choice([1, 2, 3, 4, 1000]), "M": 1000, "S": 1000}
+        scens.append({"id": sid("C11", "walk", i), "props": ["C11"], "mode": "clean", "tags": ["walk"],
+                      "steps": [{"op": "tree", "tree": t}, {"op": "walk"}, bk(o), {"op": "list", "band": 0}]})
+    return scens, mcs
+
+
+def c12_tree(rng):
+    names = ["a", "ab", "a.b", "a-", "é", "éa", "éé", "b", "日", "日本", "z"]
+    return random_tree(rng, nmax=rng.choice([6, 10, 16]), depth=4, names=names, pre_epoch=False, maxlen=5, symlinks=True)
+
+
+@check("C12", "model_checking", "TLA+ spec (Apath!IsAncestorOrSelf, Reader!Listing): real is_prefix_of table, subtree listings and subtree restores compared with the spec by TLC; MC_Stitch proves the filter commutes with stitching")
+def gen_c12(tier, seed):
+    rng = random.Random(seed * 1000 + 12)
+    mcs = []
+    r = cvlib.run_tlc_model("MC_Apath.tla", "MC_Apath_quick.cfg", timeout=1200)
+    mcs.append(("MC_Apath.tla", "MC_Apath_quick.cfg", r))
+    scens = [apath_table_scenario("C12", tier, rng)]
+    n = 50 if tier == "quick" else 600
+    for i in range(n):
+        t = c12_tree(rng)
+        o = {"H": rng.choice([1, 2, 3, 4, 5, 7, 1000]), "M": rng.choice([2, 1000]), "S": rng.choice([1, 1000])}
+        steps = [{"op": "tree", "tree": t}, bk(o)]
+        paths = [path_str(nd["p"]) for nd in t if nd["p"]]
+        dirs = [path_str(nd["p"]) for nd in t if nd["p"] and nd["k"] == "Dir"]
+        # every existing path, textual siblings of existing paths, and missing paths
+        subs = list(paths)
+        for q in paths[:6]:
+            subs += [q + "a", q[:-1] if len(q) > 2 else "/zz", q + "/nope"]
+        subs = [x for x in dict.fromkeys(subs) if x != "/" and not x.endswith("/")]
+        if tier == "quick" and len(subs) > 14:
+            subs = rng.sample(subs, 14)
+        for sub in subs:
+            steps.append({"op": "list", "band": 0, "subtree": sub})
+        for d in (dirs if tier != "quick" else dirs[:5]):
+            steps.append({"op": "restore", "band": 0, "subtree": d})
+        if i % 3 == 0:
+            # on a stitched (interrupted) version too
+            t2 = mutate_tree(rng, t, names=["a", "ab", "é", "éa", "日"], maxlen=5)
+            steps += [{"op": "tree", "tree": t2}, bk(o, crash_at=rng.randrange(14, 40))]
+            for sub in subs[:6]:
+                steps.append({"op": "list", "band": 1, "subtree": sub})
+            for d in dirs[:3]:
+                steps.append({"op": "restore", "band": 1, "subtree": d})
+        scens.append({"id": sid("C12", "sub", i), "props": ["C12"], "mode": "clean", "tags": ["subtree"], "steps": steps})
+    return scens, mcs
+
+
+# ------------------------------------------------------------------------------------------
 # C08 stitching: arrangements enumerated by TLC (spec/MC_Stitch.tla), replayed on harness-written archives
 
 C08_PATHS = {"Paths3": ["/a", "/b", "/a/b"], "Paths4": ["/a", "/ab", "/b", "/a/b"]}
@@ -588,6 +684,8 @@ NONTRIVIAL = {
     "C07": (lambda s: has_op(s, "conc_sweep") or sum(1 for st in s["steps"] if st["op"] == "backup") >= 2, "distinct histories with at least two backups, or backup||backup schedule sweeps"),
     "C08": (lambda s: sum(1 for b in s["steps"][0]["bands"] if b["head"] and not b["tail"]) >= 1 and len(s["steps"][0]["bands"]) >= 2,
             "distinct arrangements with at least two band directories of which at least one is an incomplete version (stitching happens)"),
+    "C11": (lambda s: has_op(s, "apath_table") or len(s["steps"][0].get("tree", [])) >= 4, "the comparator/validity table (all pairs of the exported strings) and distinct walked trees with >= 4 nodes"),
+    "C12": (lambda s: has_op(s, "apath_table") or sum(1 for st in s["steps"] if st.get("subtree")) >= 3, "the ancestor table and distinct (tree, settings) cases with >= 3 subtree selections"),
     "C13": (lambda s: has_op(s, "backup"), "distinct histories with at least one backup"),
     "C14": (lambda s: sum(1 for st in s["steps"] if st["op"] in ("backup", "sweep")) >= 2, "distinct scenarios with a second backup over existing data"),
 }
@@ -634,6 +732,16 @@ MANIFEST_TEXT = {
                      "gaps) x all hunk layouts of subsets of an order-exercising path alphabet and proves StitchOf equal to a declarative statement "
                      "of the rule, strictly increasing, duplicate-free, with correct provenance. The arrangements are written as real archives and "
                      "the real iter_entries (every N, subtree and exclusion filters) is compared with Listing() by TLC."),
+    "C11": dict(ref="DESIGN.md 7 C11", note=TRUST,
+                text="Apath.tla states the documented order and validity rule independently; TLC checks irreflexive/asymmetric/total/transitive "
+                     "over all triples, children-before-grandchildren, contiguity of everything below a directory, parent-first, on all paths of "
+                     "bounded depth over an alphabet with bytes below and above '/', multi-byte names and shared prefixes. The real Apath::cmp on "
+                     "ALL pairs of those paths, is_valid / FromStr / From<&str> on well- and ill-formed strings, and the order of the real source "
+                     "walk and of every written index are compared with the spec by TLC."),
+    "C12": dict(ref="DESIGN.md 7 C12", note=TRUST,
+                text="The real is_prefix_of on all pairs of the C11 path set against IsAncestorOrSelf; real subtree listings (S over existing "
+                     "dirs, files, textual siblings, missing paths) and subtree restores (S over directories), on complete and stitched versions "
+                     "with small hunks, compared by TLC with Listing()/RestoreOf restricted to S."),
     "C13": dict(ref="DESIGN.md 7 C13", note=TRUST,
                 text="doc/format.md is the predicate FormatViol in spec/Format.tla; TLC evaluates it after every mutating storage verb of "
                      "every trace (histories x settings hitting hunk and block boundaries, interrupted backups), on payloads decoded by the "
